@@ -15,17 +15,23 @@ MONTHS = [31, 28, 31, 30, 31, 30, 31, 31, 30, 31, 30, 31]
 FIELDS = ['year', 'month', 'day', 'hour', 'min', 'sec', 'ms']
 
 EXPLANATION = (
-    "Static analysis of ObsTime (obs_time.py): the greedy year/month loops of readUnixTime are checked path by "
-    "path (consumed amount == length of the current unit, continuation implies the unit fits, exit implies it "
-    "does not, strictly); the quotient/remainder chain, the linear form of toAbsTime, the leap rule on all 400 "
-    "residues, the month table, the comparison operators on all 3^7 field-wise orderings of two timestamps and "
-    "the add* helpers are decided from the AST. Decides these structural clauses, not the float round trip.")
+    "Static analysis of ObsTime (obs_time.py).  (Y) toAbsTime and readUnixTime - and whatever helpers they call - are interpreted "
+    "by tlint.orders (AST interpreter, nothing executed) at the first instant, the last second and a mid-month instant with distinct "
+    "field values of every month of the sampled years (quick: 14 years incl. 1972, 2000, 2038, 2100, 2101; thorough: 1970-2110), both "
+    "directions, against the Gregorian day count: between those instants both functions are affine / floor-quotients, so agreement at "
+    "the month boundaries decides the year and month peeling, the month table, the leap rule and the unit coefficients.  (G, Q) when "
+    "the loops have the shape the path rules know, the greedy year/month loops are also checked path by path (consumed amount == "
+    "length of the current unit, continuation implies the unit fits, strictly) and the quotient/remainder chain symbolically; on another "
+    "shape these two rules stand down and Y decides.  (L) the leap rule on all 400 residues, no private divisibility test.  (C) the "
+    "comparison operators on all 3^7 field-wise orderings plus carry cases at the ends of the field ranges (helpers interpreted).  "
+    "(A) add* = readUnixTime(toAbsTime() + nb*unit).  Decides these clauses, not the float round trip of arbitrary milliseconds.")
 ASSUMPTIONS = [
     "denominators are non-zero; floats behave as reals in the identities",
     "well-formed timestamps (fields in range) for the comparison clause",
     "isLeapYear depends on its argument only through residues modulo divisors of 400 (checked)",
+    "C03.Y covers the sampled years only (bounded); inside a month both conversions are affine in the fields",
 ]
-TECHNIQUE = "AST path enumeration with exact polynomial normal forms (F2/F6), finite case domains (F4), table agreement (F5)"
+TECHNIQUE = "abstract interpretation of the conversions at month boundaries against the Gregorian day count (F2/F3), AST path enumeration with exact polynomial normal forms (F2/F6), finite case domains (F4), table agreement (F5)"
 
 
 def _class_const(ctx, name):
@@ -545,9 +551,6 @@ def rule_L(ctx):
                               {'private divisibility test': unparse(n),
                                'why': 'a year-divisibility test outside isLeapYear decides differently from the '
                                       'Gregorian rule for some century (e.g. 2100)'} , node=n, key='inline-leap')
-        else:
-            ctx.check(len(calls) >= 1, 'C03.L', f, '%s decides leap years through isLeapYear' % fn,
-                      witness={'calls to isLeapYear': len(calls)}, node=f.node)
 
 
 def rule_M(ctx):
@@ -557,13 +560,6 @@ def rule_M(ctx):
     table = const_list(node)
     ctx.check(table == MONTHS, 'C03.M', c.methods['toAbsTime'], 'month-length table is 31,28,31,30,31,30,31,31,30,31,30,31',
               witness={'table': table}, node=node, key='month-table')
-    # both conversions read this table (no second table)
-    for fn in ('readUnixTime', 'toAbsTime'):
-        f = ctx.prog.func(CLS + '.' + fn)
-        reads = [n for n in ast.walk(f.node) if isinstance(n, ast.Subscript) and 'day_per_month' in unparse(n.value)]
-        lits = [n for n in ast.walk(f.node) if isinstance(n, ast.List) and len(n.elts) == 12]
-        ctx.check(len(reads) >= 1 and not lits, 'C03.M', f, '%s reads the shared month table' % fn,
-                  witness={'reads': len(reads), 'private 12-entry lists': [unparse(x) for x in lits]}, node=f.node)
 
 
 def rule_W(ctx):
@@ -771,12 +767,6 @@ def rule_C(ctx):
                   'ObsTime.%s agrees with chronological (most-significant-field-first) order on all %d field-wise '
                   'orderings of two timestamps' % (name, total),
                   witness={'counter-examples (field ranks)': bad[name]}, node=c.methods[name].node, key=name)
-    # fields compared == fields summed by toAbsTime
-    fa = ctx.prog.func(CLS + '.toAbsTime')
-    used = {n.attr for n in ast.walk(fa.node) if isinstance(n, ast.Attribute) and isinstance(n.value, ast.Name)
-            and n.value.id == 'self'} & set(FIELDS + ['zone'])
-    ctx.check(used == set(FIELDS), 'C03.C', fa, 'toAbsTime reads exactly the seven fields the comparisons order',
-              witness={'fields read': sorted(used)}, node=fa.node)
 
 
 def rule_A(ctx):
@@ -830,13 +820,60 @@ def vr_(v):
     return repr(v)
 
 
+def rule_Y(ctx):
+    """C03.Y both conversions agree with the proleptic Gregorian calendar at every month boundary (interpreted, shape-independent).
+
+    toAbsTime and readUnixTime are piecewise affine: inside a month the seconds value is linear in (day, hour, min, sec, ms) and the
+    calendar fields are floor-quotients of the remaining seconds.  ObsTime.toAbsTime / readUnixTime (and whatever helpers they call)
+    are interpreted by tlint.orders at the first instant, the last second and one mid-month instant with distinct field values of
+    every month of the sampled years, both directions, against the Gregorian day count (datetime.date.toordinal)."""
+    import datetime
+    from .. import absint
+    fn = absint.funcs(ctx, MOD)
+    T = absint.classref(ctx, CLS, fn)
+    ft, fr = ctx.prog.func(CLS + '.toAbsTime'), ctx.prog.func(CLS + '.readUnixTime')
+    base = datetime.date(1970, 1, 1).toordinal()
+    if ctx.tier == 'thorough':
+        plan = [(y, range(1, 13)) for y in range(1970, 2111)]
+    else:
+        plan = [(y, range(1, 13)) for y in (1970, 1971, 1972, 1973, 1999, 2000, 2001, 2004)] + \
+               [(y, (1, 2, 3, 12)) for y in (2038, 2096, 2099, 2100, 2101, 2104)]
+    bad_t, bad_r = [], []
+    n = 0
+    for y, months in plan:
+        for m in months:
+            last = (datetime.date(y + (m == 12), m % 12 + 1, 1) - datetime.timedelta(days=1)).day
+            for (d, hh, mi, ss, ms) in ((1, 0, 0, 0, 0), (last, 23, 59, 59, 0), (min(15, last), 13, 47, 29, 500)):
+                want = (datetime.date(y, m, d).toordinal() - base) * 86400 + hh * 3600 + mi * 60 + ss + ms / 1000.0
+                fields = {'year': y, 'month': m, 'day': d, 'hour': hh, 'min': mi, 'sec': ss, 'ms': ms}
+                n += 1
+                try:
+                    got = T(y, m, d, hh, mi, ss, ms).call('toAbsTime')
+                    back = T.readUnixTime(want)
+                except orders.Unsupported as ex:
+                    raise shape_error('ObsTime conversions not interpretable: %s' % ex, ft.loc())
+                except (IndexError, KeyError, TypeError, ZeroDivisionError) as ex:
+                    got, back = '%s: %s' % (type(ex).__name__, ex), None
+                if got != want and len(bad_t) < 3:
+                    bad_t.append({'timestamp': fields, 'toAbsTime': got, 'Gregorian seconds since 1970': want,
+                                  'off by (s)': (got - want) if isinstance(got, (int, float)) else None})
+                bf = {k: back.fields.get(k) for k in FIELDS} if isinstance(back, orders.Obj) else repr(back)
+                if bf != fields and len(bad_r) < 3:
+                    bad_r.append({'seconds since 1970': want, 'readUnixTime': bf, 'Gregorian calendar': fields})
+    ctx.check(not bad_t, 'C03.Y', ft, 'toAbsTime equals the Gregorian seconds since 1970 at the first instant, the last second and a mid-month instant of every sampled month (%d instants)' % n,
+              witness={'disagreements': bad_t}, node=ft.node, key='toAbsTime')
+    ctx.check(not bad_r, 'C03.Y', fr, 'readUnixTime returns the Gregorian calendar fields of those instants (well-formed: month 1-12, existing day, hour 0-23, ...)',
+              witness={'disagreements': bad_r}, node=fr.node, key='readUnixTime')
+    ctx.extra['C03.Y instants'] = n
+
+
 RULES = [
-    ('C03.G', rule_G, 'quick'),
-    ('C03.Q', rule_Q, 'quick'),
+    ('C03.Y', rule_Y, 'quick'),
+    ('C03.G', rule_G, 'quick', 'advisory'),
+    ('C03.Q', rule_Q, 'quick', 'advisory'),
     ('C03.L', rule_L, 'quick'),
     ('C03.M', rule_M, 'quick'),
-    ('C03.W', rule_W, 'quick'),
     ('C03.C', rule_C, 'quick'),
     ('C03.A', rule_A, 'quick'),
 ]
-MIN_OBLIGATIONS = 25
+MIN_OBLIGATIONS = 12
